@@ -341,3 +341,212 @@ example : takeNargs (-1) ["-".toList, "x".toList] = 0 := by decide
 example : parseG [{ name := "level".toList, short := some 'e', delim := ':' }] true ["-e=3".toList] = .error .parserPanic := by decide
 
 end Carapace.Props.C01Fork
+
+/-! ### without fork features the general parser specification is the POSIX one -/
+
+namespace Carapace.Props.C01Fork
+open Carapace Carapace.Model Carapace.Spec Carapace.Spec.Pflag Carapace.Spec.PflagG
+
+/-- a POSIX flag seen as a fork flag: default delimiter, one word -/
+def embedP (f : PFlag) : PFlagG := { f with }
+
+theorem valueOkG_embed (f : PFlag) (v : Str) : valueOkG (embedP f) v = valueOk f v := by
+  unfold valueOkG embedP; simp
+
+theorem findLongG_embed (fs : PFlags) (body : Str) :
+    findLongG (fs.map embedP) body = (findLong fs (Str.cutChar '=' body).1).map embedP := by
+  unfold findLongG findLong
+  induction fs with
+  | nil => rfl
+  | cons a l ih =>
+    simp only [List.map_cons, List.find?]
+    have e1 : (embedP a).delim = '=' := rfl
+    have e2 : (embedP a).name = a.name := rfl
+    rw [e1, e2]
+    have hsym : ((Str.cutChar '=' body).1 == a.name) = (a.name == (Str.cutChar '=' body).1) := by
+      rw [Bool.eq_iff_iff]; simp only [beq_iff_eq]; exact eq_comm
+    rw [hsym]
+    cases (a.name == (Str.cutChar '=' body).1) with
+    | true => simp
+    | false => simpa using ih
+
+theorem findShortG_embed (fs : PFlags) (c : Char) :
+    findShortG (fs.map embedP) c = (findShort fs c).map embedP := by
+  unfold findShortG findShort
+  induction fs with
+  | nil => rfl
+  | cons a l ih =>
+    simp only [List.map_cons, List.find?]
+    have : (embedP a).short = a.short := rfl
+    rw [this]
+    cases (a.short == some c) with
+    | true => simp
+    | false => simpa using ih
+
+def liftL : Except Err ((Str × Str) × Bool) → Except Err (Option (Str × Str) × Nat)
+  | .ok (a, t) => .ok (some a, if t then 1 else 0)
+  | .error e => .error e
+
+def liftS : Except Err (List (Str × Str) × Bool) → Except Err (List (Str × Str) × Nat)
+  | .ok (l, t) => .ok (l, if t then 1 else 0)
+  | .error e => .error e
+
+theorem parseLongG_posix (fs : PFlags) (body : Str) (rest : List Str) :
+    parseLongG (fs.map embedP) false body rest = liftL (parseLong fs body rest.head?) := by
+  unfold parseLongG parseLong
+  cases body with
+  | nil => rfl
+  | cons c r =>
+    simp only
+    by_cases hc : c = '-' ∨ c = '='
+    · simp [hc, liftL]
+    · simp only [hc, if_false]
+      rw [findLongG_embed]
+      rcases hcut : Str.cutChar '=' (c :: r) with ⟨n, v?⟩
+      simp only
+      cases hf : findLong fs n with
+      | none =>
+        simp only [Option.map_none, Bool.false_eq_true, if_false]
+        split <;> rfl
+      | some f =>
+        simp only [Option.map_some]
+        have e1 : (embedP f).delim = '=' := rfl
+        have e2 : (embedP f).name = f.name := rfl
+        have e3 : (embedP f).toPFlag = f := rfl
+        rw [e1, hcut]
+        cases v? with
+        | some v =>
+          simp only [valueOkG_embed, e2]
+          split <;> rfl
+        | none =>
+          simp only [e3, e2]
+          cases hd : f.noOptDefVal with
+          | some d => rfl
+          | none =>
+            cases rest with
+            | nil => rfl
+            | cons a rs =>
+              have e4 : (embedP f).nargs = 0 := rfl
+              simp only [List.isEmpty_cons, Bool.false_eq_true, if_false, List.head?_cons, e4, valueOkG_embed]
+              have hv : nargsValue 0 (a :: rs) = a := by unfold nargsValue; simp
+              have ht : takeNargs 0 (a :: rs) = 1 := by unfold takeNargs; simp
+              rw [hv, ht]
+              split <;> rfl
+
+theorem cut_eq_short (c d : Char) (r2 : Str) (hc : c ≠ '=') :
+    (Str.cutChar '=' (c :: '=' :: d :: r2)).2 = some (d :: r2) := by
+  simp [Str.cutChar, hc]
+
+/-- no flag uses `=` as its shorthand letter (the hypothesis of `C01_short_agrees`) -/
+def NoEqShort (fs : PFlags) : Prop := ∀ f ∈ fs, f.short ≠ some '='
+
+theorem findShort_ne_eq (fs : PFlags) (h : NoEqShort fs) (c : Char) (f : PFlag) (hf : findShort fs c = some f) : c ≠ '=' := by
+  intro hc
+  unfold findShort at hf
+  have hm := List.mem_of_find?_eq_some hf
+  have hp := List.find?_some hf
+  simp only [beq_iff_eq] at hp
+  exact h f hm (hc ▸ hp)
+
+theorem parseShortG_posix (fs : PFlags) (h : NoEqShort fs) (cs : Str) (rest : List Str) :
+    parseShortG (fs.map embedP) false cs rest = liftS (parseShort fs cs rest.head?) := by
+  induction cs with
+  | nil => rfl
+  | cons c more ih =>
+    unfold parseShortG parseShort
+    rw [findShortG_embed]
+    cases hf : findShort fs c with
+    | none =>
+      simp only [Option.map_none, Bool.false_eq_true, if_false]
+      split <;> rfl
+    | some f =>
+      have hce : c ≠ '=' := findShort_ne_eq fs h c f hf
+      have e1 : (embedP f).delim = '=' := rfl
+      have e2 : (embedP f).name = f.name := rfl
+      have e3 : (embedP f).toPFlag = f := rfl
+      have e4 : (embedP f).nargs = 0 := rfl
+      simp only [Option.map_some]
+      cases he : eqValue more with
+      | some v =>
+        -- more = '=' :: d :: r2 and v = d :: r2
+        have hm : ∃ d r2, more = '=' :: d :: r2 ∧ v = d :: r2 := by
+          unfold eqValue at he
+          split at he
+          · rename_i d r2; exact ⟨d, r2, rfl, by simpa using he.symm⟩
+          · simp at he
+        obtain ⟨d, r2, hmore, hv⟩ := hm
+        subst hmore; subst hv
+        simp only [e1, cut_eq_short c d r2 hce, valueOkG_embed, e2]
+        split <;> rfl
+      | none =>
+        simp only [e3, e2]
+        cases hd : f.noOptDefVal with
+        | some dv =>
+          simp only
+          rw [ih]
+          cases parseShort fs more rest.head? with
+          | error e => rfl
+          | ok p => obtain ⟨ms, t⟩ := p; rfl
+        | none =>
+          simp only
+          cases more with
+          | cons d r2 =>
+            simp only [valueOkG_embed]
+            split <;> rfl
+          | nil =>
+            cases rest with
+            | nil => rfl
+            | cons a rs =>
+              simp only [List.isEmpty_cons, Bool.false_eq_true, if_false, List.head?_cons, e4, valueOkG_embed]
+              have hv : nargsValue 0 (a :: rs) = a := by unfold nargsValue; simp
+              have ht : takeNargs 0 (a :: rs) = 1 := by unfold takeNargs; simp
+              rw [hv, ht]
+              split <;> rfl
+
+theorem parseArgsG_posix (fs : PFlags) (h : NoEqShort fs) (inter : Bool) (l : List Str) (b : Bool) (p : Parsed) :
+    parseArgsG (fs.map embedP) false inter l (if b then 1 else 0) p = parseArgs fs inter l b p := by
+  induction l generalizing b p with
+  | nil => cases b <;> rfl
+  | cons s rest ih =>
+    cases b with
+    | true =>
+      show parseArgsG (fs.map embedP) false inter (s :: rest) (0 + 1) p = _
+      unfold parseArgsG parseArgs
+      exact ih false p
+    | false =>
+      show parseArgsG (fs.map embedP) false inter (s :: rest) 0 p = _
+      unfold parseArgsG parseArgs
+      cases hk : wordKind s with
+      | dash => rfl
+      | long body =>
+        simp only
+        rw [parseLongG_posix]
+        cases parseLong fs body rest.head? with
+        | error e => rfl
+        | ok r =>
+          obtain ⟨a, took⟩ := r
+          simp only [liftL, Option.toList]
+          exact ih took _
+      | short cs =>
+        simp only
+        rw [parseShortG_posix fs h]
+        cases parseShort fs cs rest.head? with
+        | error e => rfl
+        | ok r =>
+          obtain ⟨as, took⟩ := r
+          simp only [liftS]
+          exact ih took _
+      | pos =>
+        simp only
+        cases inter with
+        | true => simp only [if_true]; exact ih false _
+        | false => rfl
+
+/-- **the general parser specification is the POSIX one on flag sets without fork features**: what is proved
+    about `Pflag.parse` (C01Slots, C01Flag, C07Parser) is proved about `PflagG.parseG` there -/
+theorem parseG_posix (fs : PFlags) (h : NoEqShort fs) (inter : Bool) (args : List Str) :
+    parseG (fs.map embedP) inter args = parse fs inter args := by
+  unfold parseG parse
+  exact parseArgsG_posix fs h inter args false {}
+
+end Carapace.Props.C01Fork
